@@ -162,8 +162,10 @@ func TestSim(t *testing.T) {
 			die(2, "%v", err)
 		}
 	}
+	ColdStart = os.Getenv("SIM_COLD") != ""
 	// The hook must be alive: a trivially stepping query has to report steps.
-	{
+	// (Not in cold-start runs, whose point is that nothing has run before.)
+	if !ColdStart {
 		sc := C20Case{Path: "$.a", Doc: DocSpec{JSON: `{"a":1}`}, Kind: "query", Err: "canceled"}.scenario(nil)
 		w, err := buildWorld(sc)
 		if err != nil {
